@@ -135,7 +135,24 @@ Theorem C13_l2_histories_refine : ∀ (c : cfg) (h : list msg) (s : l2state),
   ∃ ops, core_of (run c s h).1 = foldl vop_exec (core_of s) ops.
 Proof. exact run_val_reach. Qed.
 
+(* An EDITED export (restart from a genesis whose LastValidatorPowers differ from the validators'
+   ConsPower: powers changed up or down, power 0 for a bonded validator, validators without a
+   last power; every last power positive and naming a genesis validator - otherwise InitGenesis
+   panics).  ValidateGenesis does not look at last powers.  InitGenesis tells the engine the
+   LAST powers (well-formed batch; engine = last powers through keys); the first block - with any
+   messages - reconciles, and from then on everything of C13_engine_equals_state holds. *)
+Theorem C13_edited_export_reconciled : ∀ (g : vgenesis) (h0 : Z) (b : list vop) (bs : list (list vop)),
+  genesis_valid_edited g → g_exported g = true →
+  ∃ st0 ups0 st bl, genesis_chain g h0 = Some (st0, ups0) ∧ batch_wellformed ∅ ups0 ∧
+    eng_last (vc_vs (ch_core st0)) (ch_eng st0) ∧
+    run_blocks st0 (b :: bs) = Some (st, bl) ∧ batches_ok ∅ (ups0 :: bl) ∧
+    ch_eng st = foldl apply_updates ∅ (ups0 :: bl) ∧
+    chain_inv st ∧ ch_eng st = state_set (vc_vs (ch_core st)) ∧
+    last (vc_vs (ch_core st)) = v_pow <$> vals (vc_vs (ch_core st)).
+Proof. exact c13_edited_export_reconciled. Qed.
+
 Print Assumptions C13_engine_equals_state.
+Print Assumptions C13_edited_export_reconciled.
 Print Assumptions C13_engine_accepts.
 Print Assumptions C13_batch_wellformed.
 Print Assumptions C13_indexes_bijective.
